@@ -88,8 +88,9 @@ _NOJAC_MIN.update({"jacobian_not_implemented:moe-soft": 1, "jacobian_not_impleme
                    "jacobian_not_implemented:rbf-non-euclidean-norm": 1,
                    "jacobian_not_implemented:rbf-callable-without-derivative": 1,
                    "jacobian_not_implemented:power-transformer-has-no-jacobian": 10})
-# quick: about half of what seed 0 observes.  thorough: about half of what a run capped by budget_s on a heavily
-# loaded machine observes (an idle machine yields about 5 times these numbers).
+# quick: about half of what seed 0 observes.  thorough: the transformer counters (run first, never capped) are half of
+# what seed 0 observes; the model counters are about 0.6 of what a run capped by budget_s on a machine loaded 20 times
+# over observed (jacobian_oracle_evaluations: 40 469 capped, 120 726 complete), so that a capped run stays conclusive.
 MIN_COUNTERS = {
     "quick": dict({
         "jacobian_oracle_evaluations": 2200, "jacobian_dict_form_checked": 1800, "jacobian_batch_form_checked": 1700,
@@ -110,22 +111,22 @@ MIN_COUNTERS = {
         "interpolation_checked:GaussianProcessRegressor": 2,
     }, **_NOJAC_MIN),
     "thorough": dict({
-        "jacobian_oracle_evaluations": 12000, "jacobian_dict_form_checked": 9000, "jacobian_batch_form_checked": 9000,
-        "interpolation_checked": 800, "surrogate_execute_checked": 9000, "surrogate_linearize_checked": 8000,
-        "transformer_roundtrip_checked": 4000, "transformer_jacobian_checked": 8000,
-        "transformer_jacobian_inverse_checked": 8000, "transformer_inverse_matrix_checked": 8000,
-        "jacobian_not_implemented": 300, "transformer_jacobian_not_implemented": 800,
-        "jacobian_checked:kernel=multiquadric": 400, "jacobian_checked:kernel=inverse_multiquadric": 400,
-        "jacobian_checked:kernel=gaussian": 400, "jacobian_checked:kernel=linear": 400, "jacobian_checked:kernel=cubic": 400,
-        "jacobian_checked:kernel=quintic": 400, "jacobian_checked:kernel=thin_plate": 400,
-        "jacobian_checked:LinearRegressor": 1200, "jacobian_checked:PolynomialRegressor": 2000,
-        "jacobian_checked:RBFRegressor": 3500, "jacobian_checked:TPSRegressor": 800, "jacobian_checked:PCERegressor": 1600,
-        "jacobian_checked:MOERegressor": 1000, "jacobian_checked:RegressorChain": 1400,
-        "jacobian_checked:OTGaussianProcessRegressor": 250,
-        "interpolation_checked:RBFRegressor": 400, "interpolation_checked:TPSRegressor": 100,
-        "interpolation_checked:RegressorChain": 80, "interpolation_checked:PolynomialRegressor": 70,
-        "interpolation_checked:OTGaussianProcessRegressor": 40, "interpolation_checked:LinearRegressor": 20,
-        "interpolation_checked:GaussianProcessRegressor": 20,
+        "jacobian_oracle_evaluations": 25000, "jacobian_dict_form_checked": 19000, "jacobian_batch_form_checked": 19000,
+        "interpolation_checked": 1700, "surrogate_execute_checked": 19000, "surrogate_linearize_checked": 17000,
+        "transformer_roundtrip_checked": 4700, "transformer_jacobian_checked": 10000,
+        "transformer_jacobian_inverse_checked": 10000, "transformer_inverse_matrix_checked": 10000,
+        "jacobian_not_implemented": 700, "transformer_jacobian_not_implemented": 1100,
+        "jacobian_checked:kernel=multiquadric": 900, "jacobian_checked:kernel=inverse_multiquadric": 900,
+        "jacobian_checked:kernel=gaussian": 900, "jacobian_checked:kernel=linear": 900, "jacobian_checked:kernel=cubic": 900,
+        "jacobian_checked:kernel=quintic": 900, "jacobian_checked:kernel=thin_plate": 900,
+        "jacobian_checked:LinearRegressor": 2500, "jacobian_checked:PolynomialRegressor": 4000,
+        "jacobian_checked:RBFRegressor": 7500, "jacobian_checked:TPSRegressor": 1700, "jacobian_checked:PCERegressor": 3500,
+        "jacobian_checked:MOERegressor": 2300, "jacobian_checked:RegressorChain": 3000,
+        "jacobian_checked:OTGaussianProcessRegressor": 500,
+        "interpolation_checked:RBFRegressor": 950, "interpolation_checked:TPSRegressor": 220,
+        "interpolation_checked:RegressorChain": 200, "interpolation_checked:PolynomialRegressor": 150,
+        "interpolation_checked:OTGaussianProcessRegressor": 100, "interpolation_checked:LinearRegressor": 40,
+        "interpolation_checked:GaussianProcessRegressor": 50,
     }, **_NOJAC_MIN),
 }
 SHARD_TIMEOUT = {"quick": 700, "thorough": 1500}
